@@ -119,6 +119,32 @@ pub fn universe() -> Vec<String> {
     v
 }
 
+/// the bodies that parse as a match-arm body and as a closure body (the others are counted and listed)
+fn parsable(o: &mut Outcome, all: Vec<String>) -> Vec<String> {
+    let ok = par_map(&all, |b| {
+        let config = pool::build_config(&[("edition".to_string(), "2024".to_string())], &None).unwrap();
+        let opts = hb::Opts { enc_only: true, ..Default::default() };
+        let one = std::slice::from_ref(b);
+        std::panic::catch_unwind(std::panic::AssertUnwindSafe(|| {
+            hb::analyze(&arms_source(one).text, &config, &opts).is_some() && hb::analyze(&closures_source(one, "|x| ", false).text, &config, &opts).is_some()
+        }))
+        .unwrap_or_else(|_| {
+            eprintln!("braces: the parser panicked on {b:?}");
+            false
+        })
+    });
+    let mut v = vec![];
+    for (b, k) in all.into_iter().zip(ok) {
+        if k {
+            v.push(b);
+        } else {
+            o.count("universe:does_not_parse");
+            o.notes.push(format!("body left out (does not parse): {b:?}"));
+        }
+    }
+    v
+}
+
 #[derive(Clone, Debug)]
 pub struct BCfg {
     pub max_width: usize,
@@ -193,7 +219,7 @@ fn closures_source(bodies: &[String], head: &str, blocks_only: bool) -> Src {
     let mut text = String::from("fn g() {\n");
     let mut at = HashMap::new();
     for (i, b) in bodies.iter().enumerate() {
-        if blocks_only && !(b.starts_with('{') || b.starts_with("unsafe") || b.starts_with('\'')) {
+        if blocks_only && !b.starts_with('{') {
             continue;
         }
         text.push_str("    let c = ");
@@ -294,9 +320,9 @@ fn run_arms(bodies: &[String], src: &Src, p: &Plan, static_ops: bool) -> Found {
         let blocky = body.starts_with('B');
         if static_ops {
             f.cases.push(("br.canflat", format!("br.canflat {body}"), g("canflat"), desc.clone(), true));
-            f.cases.push(("br.ovh", format!("br.ovh {body}"), g("ovh"), desc.clone(), blocky));
         }
         let (fmb, im) = (bit(p.cfg.fmb), bit(p.inside_macro));
+        f.cases.push(("br.ovh", format!("br.ovh {fmb} {im} {body}"), g("ovh"), desc.clone(), blocky));
         f.cases.push(("br.canbe", format!("br.canbe {im} {body}"), g("canbe"), desc.clone(), blocky));
         f.cases.push(("br.flat", format!("br.flat {fmb} {im} 0 {body}"), g("flatn"), desc.clone(), blocky));
         let cond = g("flats") != g("flatn");
@@ -328,8 +354,9 @@ fn run_arms(bodies: &[String], src: &Src, p: &Plan, static_ops: bool) -> Found {
         ));
         // rewrite_match_arm = rewrite_match_body behind the pattern, when the pattern is `A` and nothing else is there
         if !p.pats_ml && !p.has_guard {
+            // (rewrite_match_arm fails before it reaches the body when the pattern's shape does not exist)
             let outarm = g("outarm");
-            if outarm != out {
+            if outarm != out && outarm != "!err" {
                 f.direct.push(json!({"sig": "braces:arm-vs-body", "body": bodies[i], "plan": format!("{:?}", p), "out": out, "outarm": outarm, "what": "rewrite_match_arm and rewrite_match_body behind the same pattern differ"}));
             }
         }
@@ -437,7 +464,7 @@ fn plans(rng: &mut Rng, thorough: bool) -> Vec<Plan> {
 
 /// (1) + (2): the hooks against the model
 fn corr_cases(o: &mut Outcome, rng: &mut Rng, thorough: bool) {
-    let bodies = universe();
+    let bodies = parsable(o, universe());
     o.count_n("universe:bodies", bodies.len() as u64);
     let arms = arms_source(&bodies);
     let clos: Vec<(Src, bool)> = HEADS.iter().map(|(h, blocks_only)| (closures_source(&bodies, h, *blocks_only), *blocks_only)).collect();
@@ -467,6 +494,35 @@ fn corr_cases(o: &mut Outcome, rng: &mut Rng, thorough: bool) {
 const PATS: &[&str] = &["A", "| A", "A | B", "Some(x)", "Aaaaaaaaaaaaaaaaaaaa::Bbbbbbbbbbbbbbbbbbb(ccccccccc)"];
 const GUARDS: &[&str] = &["", "", "", " if g", " if ggggggggggggggggggg && hhhhhhhhhhhhhhhhhhhhhhh"];
 
+/// Shapes the seed-dependent generator stays away from (each is an enumerated probe or a finding of another check):
+/// an arm body that carries attributes once its redundant braces are gone (`A => #[a] e`, `A => { #[a] e }`: known
+/// finding BRACES-ATTR-BODY-BRACE-LINE), and the long `return` whose `;` is added after the line was filled.
+/// `{ loop { .. }; }`: the statement printer drops the `;` behind a loop, the block becomes a single-expression block
+/// and the next pass removes it (known finding BRACES-LOOP-SEMI).
+fn loop_semi(b: &str) -> bool {
+    ["{ loop ", "{ while ", "{ for "].iter().any(|p| b.contains(p)) && b.contains("; }")
+}
+fn arm_body_ok(b: &str) -> bool {
+    !(b.starts_with("#[a] ") && !b.starts_with("#[a] {")) && !b.starts_with("{ #[a] ") && !b.contains("return aaaa") && !loop_semi(b)
+}
+fn closure_body_ok(b: &str) -> bool {
+    !b.contains("return aaaa") && !loop_semi(b)
+}
+/// a closure that is a call argument goes through `rewrite_last_closure`, which removes ONE plain block where
+/// `get_inner_expr` removes them all: nested plain blocks there are not stable (known finding
+/// BRACES-LAST-CLOSURE-NESTED)
+fn closure_arg_body_ok(b: &str) -> bool {
+    closure_body_ok(b) && !b.starts_with("{ {")
+}
+fn pick_body<'a>(rng: &mut Rng, bodies: &'a [String], ok: fn(&str) -> bool) -> &'a String {
+    loop {
+        let b = rng.pick(bodies);
+        if ok(b) {
+            return b;
+        }
+    }
+}
+
 fn gen_program(rng: &mut Rng, bodies: &[String]) -> String {
     let mut s = String::from("fn f() {\n");
     let n_match = rng.range(0, 2);
@@ -474,7 +530,7 @@ fn gen_program(rng: &mut Rng, bodies: &[String]) -> String {
         s.push_str("    match x {\n");
         let n = rng.range(1, 5);
         for j in 0..n {
-            let b = rng.pick(bodies);
+            let b = pick_body(rng, bodies, arm_body_ok);
             let pat = rng.pick(PATS);
             let guard = rng.pick(GUARDS);
             let arrow = if rng.chance(1, 12) { " /* k */" } else { "" };
@@ -486,15 +542,15 @@ fn gen_program(rng: &mut Rng, bodies: &[String]) -> String {
     }
     let n_clo = rng.range(if n_match == 0 { 1 } else { 0 }, 3);
     for _ in 0..n_clo {
-        let b = rng.pick(bodies);
-        let blocky = b.starts_with('{') || b.starts_with("unsafe") || b.starts_with('\'');
+        let pos = rng.below(5);
+        let b = pick_body(rng, bodies, if (1..=3).contains(&pos) { closure_arg_body_ok } else { closure_body_ok });
         let head = match rng.below(6) {
-            0 if blocky => "|x| -> u8 ",
+            0 if b.starts_with('{') => "|x| -> u8 ",
             1 => "move |x, y| ",
             2 => "|| ",
             _ => "|x| ",
         };
-        match rng.below(5) {
+        match pos {
             0 => s.push_str(&format!("    let c = {head}{b};\n")),
             1 => s.push_str(&format!("    foo({head}{b});\n")),
             2 => s.push_str(&format!("    foo(1, {head}{b});\n")),
@@ -538,8 +594,15 @@ fn e2e_batch(o: &mut Outcome, batch: &[E2e], tag: &str) {
         }
         o.count("e2e:formatted");
         let out1 = &r1.out;
-        // tokens
-        o.push("oracle", "tok.equiv", format!("tok.equiv {} {} {}", crate::c01::validator_cfg(&e.cfg.pairs()), crate::toks::encode_tokens(&e.src, false), crate::toks::encode_tokens(out1, false)), "ok".into(), format!("e2e tokens {desc} -> {out1:?}"), out1 != &e.src);
+        // tokens (tok.equiv does not see through `#[a] continue;`: the `;` trailing_semicolon adds behind a jump with an
+        // attribute in front keeps it from recognising the block as a single expression; such programs are judged by
+        // the strip oracle and the second pass only)
+        let attr_jump = ["return", "break", "continue"].iter().any(|k| e.src.contains(&format!("#[a] {k}")) || e.src.contains(&format!("#![a] {k}")));
+        if attr_jump {
+            o.count("e2e:tokens:not_judged(attribute in front of a jump)");
+        } else {
+            o.push("oracle", "tok.equiv", format!("tok.equiv {} {} {}", crate::c01::validator_cfg(&e.cfg.pairs()), crate::toks::encode_tokens(&e.src, false), crate::toks::encode_tokens(out1, false)), "ok".into(), format!("e2e tokens {desc} -> {out1:?}"), out1 != &e.src);
+        }
         // strip-equality of every arm body and closure body
         match (bodies_of(&e.src, &e.cfg), bodies_of(out1, &e.cfg)) {
             (Some(a), Some(b)) => {
@@ -577,7 +640,7 @@ const FIXED_E2E: &[&str] = &[
 ];
 
 fn e2e_cases(o: &mut Outcome, rng: &mut Rng, thorough: bool) {
-    let bodies = universe();
+    let bodies = parsable(&mut Outcome::default(), universe());
     let mut batch = vec![];
     for src in FIXED_E2E {
         for w in [100usize, 60, 30] {
@@ -601,8 +664,44 @@ fn e2e_cases(o: &mut Outcome, rng: &mut Rng, thorough: bool) {
     }
 }
 
+/// Enumerated probes of inputs known dirty on the current tree (each: a second pass changes the first pass's output).
+pub fn probes(o: &mut Outcome) {
+    let list: [(&str, &str, &str, &[(&str, &str)]); 3] = [
+        (
+            "BRACES-ATTR-BODY-BRACE-LINE",
+            "fn f() {\n    match x {\n        A => #[a] continue,\n    }\n}\n",
+            "a match arm body with an attribute that is wrapped in a block gets `=>` newline `{` (the attribute forbids the same line, tests/target/attrib.rs blesses it); when the next pass does not remove that block again (the `;` added behind the jump under style_edition 2024, or a multi-line condition) it prints `=> {`",
+            &[("style_edition", "2024")],
+        ),
+        (
+            "BRACES-LOOP-SEMI",
+            "fn f() {\n    match x {\n        A => { { loop { b }; } }\n    }\n}\n",
+            "the `;` behind a loop statement is dropped, which turns `{ loop { .. }; }` into a single-expression block that the next pass removes (arm bodies and closure bodies)",
+            &[("match_arm_blocks", "false")],
+        ),
+        (
+            "BRACES-LAST-CLOSURE-NESTED",
+            "fn f() {\n    it.map(move |x, y| { { { if a { b } else { c } } } }).count();\n}\n",
+            "a closure in call-argument position goes through rewrite_last_closure, which removes one plain block where get_inner_expr removes all of them: nested plain blocks around a control-flow body take two passes to settle",
+            &[("max_width", "62")],
+        ),
+    ];
+    for (id, src, what, cfg) in list {
+        let cfg: Vec<(String, String)> = cfg.iter().map(|(k, v)| (k.to_string(), v.to_string())).collect();
+        let t = std::time::Duration::from_secs(20);
+        let r1 = pool::run_jobs(&[pool::Job { src: src.to_string(), cfg: cfg.clone(), file_lines: None }], 1, t);
+        let out1 = r1.first().map(|r| r.out.clone()).unwrap_or_default();
+        let r2 = pool::run_jobs(&[pool::Job { src: out1.clone(), cfg, file_lines: None }], 1, t);
+        let out2 = r2.first().map(|r| r.out.clone()).unwrap_or_default();
+        let fails = r1.first().map_or(false, |r| r.clean()) && r2.first().map_or(false, |r| r.clean()) && out1 != out2;
+        o.probes.push(json!({"id": id, "fails": fails, "what": what, "detail": format!("{out1:?} -> {out2:?}")}));
+    }
+}
+
 pub fn cases(o: &mut Outcome, rng: &mut Rng, thorough: bool) {
-    pool::install_panic_hook();
+    if std::env::var("BRACES_DEBUG").is_err() {
+        pool::install_panic_hook();
+    }
     corr_cases(o, rng, thorough);
     e2e_cases(o, rng, thorough);
 }
@@ -611,5 +710,6 @@ pub fn run(tier: &str, seed: u64, out: &std::path::Path) -> i32 {
     let mut o = Outcome::new("BRACES", tier, seed);
     let mut rng = Rng::new(seed);
     cases(&mut o, &mut rng, tier == "thorough");
+    probes(&mut o);
     o.finish(out, jobs())
 }
